@@ -25,12 +25,12 @@ from mc.ref import chainsearch as ref
 ID = 'C29'
 LEVEL = 'exploration'
 RULE = ('every range length L x every subset of <=K change points x every step 1..L+1 x range start in {0,5} x value kind; '
-        'non-trivial = distinct (L, start, change points, step) with at least one change point '
-        '(the value kind is not part of the key)')
+        'non-trivial = distinct histories (L, start, change points) with at least one change point; each is run under '
+        'every step (pairs counted in extra.history_x_step_pairs_with_a_change); the value kind is not part of the key')
 BOUND = {
-    'quick': 'L<=14 with <=3 change points, all steps 1..L+1, start in {0,5}; 7 value kinds for L<=8 (ints above); '
+    'quick': 'L in 0..14 with <=3 change points, all steps 1..L+1, start in {0,5}; 7 value kinds for L<=8 (ints above); '
              'spot length 120 with every single change point, steps {1,7,59,60,61,119,120,121}',
-    'thorough': 'L<=24 with <=4 change points and L<=40 with <=3, all steps 1..L+1, start in {0,5}; 7 value kinds for L<=10; '
+    'thorough': 'L in 0..24 with <=4 change points and L<=40 with <=3, all steps 1..L+1, start in {0,5}; 7 value kinds for L<=10; '
                 'spot lengths {100,120,180,300} with every set of <=2 change points, steps {1,7,59,60,61,L-1,L,L+1}',
 }
 ASSUMPTIONS = [
@@ -178,15 +178,15 @@ def check(case):
     nv = 0
     s = obs['single']
     first = ref.first_change(hist, last, head, equals)
-    if s[0] == 'raised':
+    if first is None:
+        ls = 'no change in range (no verdict): ' + ('returns' if s[0] == 'ok' else s[1] if s[0] == 'raised' else 'probes outside')
+        nv = 1
+    elif s[0] == 'raised':
         ls = f'raises {s[1]}'
         vs.append((f'find_state_change raises {s[1]}', f'{ctx}: {s[2]}'))
     elif s[0] == 'oob':
         ls = 'probes outside range'
         vs.append(('find_state_change probes a level outside [last, head]', f'{ctx}: level {s[1]}'))
-    elif first is None:
-        ls = 'no change in range (no verdict)'
-        nv = 1
     elif len(s[1]) != 2:
         ls = 'WRONG shape'
         vs.append(('find_state_change returns something that is not a (level, value) pair', f'{ctx}: {s[1]}'))
@@ -207,13 +207,13 @@ def grid(tier):
     """-> list of shard specs (L, last, maxchanges, kinds, steps-or-None, part, nparts)"""
     out = []
     if tier == 'quick':
-        for L in range(1, 15):
+        for L in range(0, 15):
             for last in (0, 5):
                 out.append((L, last, 3, KINDS if L <= 8 else ['int'], None, 0, 1))
         for part in range(8):
             out.append((120, 5, 1, ['int'], 'spot', part, 8))
     else:
-        for L in range(1, 41):
+        for L in range(0, 41):
             for last in (0, 5):
                 n = 8 if L > 30 else (4 if L > 16 else 1)
                 for part in range(n):
@@ -248,14 +248,15 @@ def run_shard(spec, tier):
                 continue
             for step in steps_for(L, steps):
                 if n:
-                    r.nt((L, last, cps, step))
+                    r.nt((L, last, cps))
+                    r.extra['history_x_step_pairs_with_a_change'] += 1
                 rel = 'step>range' if step > L else ('step divides range' if L % step == 0 else 'step does not divide range')
                 for kind in kinds:
                     case = {'L': L, 'last': last, 'changes': list(cps), 'step': step, 'kind': kind}
                     r.ev()
                     lm, ls, nv, vs = check(case)
                     r.out(f'search {kind}, {n} change(s), {rel}: {lm}')
-                    r.out(f'single {kind}, {"short" if L == 1 else "long"} range: {ls}')
+                    r.out(f'single {kind}, {"empty" if L == 0 else "short" if L == 1 else "long"} range: {ls}')
                     r.no_verdict += nv
                     for d, detail in vs:
                         r.viol(d, case, detail)
